@@ -78,6 +78,15 @@ CLAIMS.update({
    design="3/C13"),
 })
 
+CLAIMS['C02']['text'] += " In addition an explicit-state search (X2, iterative deepening with canonical-digest de-duplication, see C16) over the real client sending on two streams against a scripted peer (reserve / send / end / reset / poll_capacity, peer WINDOW_UPDATEs, SETTINGS window 0/65535 up and down, connection polls with open, budgeted (tail reclaimed from the codec) and blocked writes) runs the same accountant as an invariant in every state."
+CLAIMS.update({
+ 'C16': dict(
+   text="Explicit-state breadth-first search (X2; a state = the event history, re-executed on the real client; de-duplicated by a canonical digest of the scrubbed Debug text of the connection + stream-store snapshot hook + bytes in flight + monitor state as remaining credit) over two competing streams: reserve_capacity {0,7,10^6 (+1,16384)}, send_data {0,7,70000 (+1,16384)}, end, reset, drop, poll_capacity; peer WINDOW_UPDATE on connection / stream, SETTINGS INITIAL_WINDOW_SIZE {0,65535 (+1,7)}, RST_STREAM; connection polls with open / budgeted / blocked writes; configurations default and (stream window 7, max_send_buffer_size 16). Iterative deepening, only completed depths are claimed (quick 4-5, thorough deeper). Invariants in every state and an epilogue from every new state (usable capacity, free capacity reaches waiters, no unwoken capacity waiter).",
+   note="Trusted: wire accountant; digest completeness (Debug text + snapshot hook; cross-checked by running without de-duplication at a smaller depth in the thorough tier).",
+   tech="explicit-state BFS over the real implementation with canonical state hashing; invariants on every state, epilogue oracle from every new state",
+   design="3/C16"),
+})
+
 NOT_YET = "check not built yet (work in progress; DESIGN.md section 3 describes the planned harness)"
 NA = {}
 
